@@ -70,7 +70,7 @@ pub fn vx_len_as_u32(n: usize) -> (r: u32)
 mut self,
 //@new
 self,
-//@rw R-MUTSELF count=any
+//@rw R-MUTSELF count=any optional
 //@old
 self.$1 = $2;
 //@new
@@ -98,7 +98,7 @@ vx_self.$1 = $2;
 mut self,
 //@new
 self,
-//@rw R-MUTSELF count=any
+//@rw R-MUTSELF count=any optional
 //@old
 self.$1 = $2;
 //@new
@@ -126,7 +126,7 @@ vx_self.$1 = $2;
 mut self,
 //@new
 self,
-//@rw R-MUTSELF count=any
+//@rw R-MUTSELF count=any optional
 //@old
 self.$1 = $2;
 //@new
@@ -154,7 +154,7 @@ vx_self.$1 = $2;
 mut self,
 //@new
 self,
-//@rw R-MUTSELF count=any
+//@rw R-MUTSELF count=any optional
 //@old
 self.$1 = $2;
 //@new
@@ -182,7 +182,7 @@ vx_self.$1 = $2;
 mut self,
 //@new
 self,
-//@rw R-MUTSELF count=any
+//@rw R-MUTSELF count=any optional
 //@old
 self.$1 = $2;
 //@new
@@ -210,7 +210,7 @@ vx_self.$1 = $2;
 mut self,
 //@new
 self,
-//@rw R-MUTSELF count=any
+//@rw R-MUTSELF count=any optional
 //@old
 self.$1 = $2;
 //@new
